@@ -429,9 +429,9 @@ func (a *NodeActor) runGossipRoundWithTargets(ctx vivid.ActorContext, targets []
 		if !a.gossipRateLimiter.Allow() {
 			break
 		}
-		if !a.shouldSendGossipTo(snap.VersionVector, addr) {
-			continue
-		}
+		// 周期性 gossip 同时承担心跳职责：LastSeen 仅在收到对方 gossip 时刷新，因此即使对方视图已是最新也必须发送。
+		// （若在此处按版本向量抑制发送，收敛后的健康集群会彻底静默，FailureDetectionTimeout 之后各节点会互相移除并反复震荡；
+		// “对方无需更新则跳过”的优化只保留在 broadcastViewOnce 的即时同步中）
 		ref, err := ctx.System().CreateRef(addr, "/@cluster")
 		if err != nil {
 			continue
